@@ -84,6 +84,8 @@ struct Table {
         if (rng.below(6) == 0) v[IP4][1 + rng.below(4)] = Bytes(4, 0);
         // ... and in one table of three the "fresh" VLAN identifier (the one a perturbed reply carries) is 0, the priority tag
         if (rng.below(3) == 0 && v[VID][1] != Bytes(2, 0) && v[VID][2] != Bytes(2, 0)) v[VID][3] = Bytes(2, 0);
+        // ... and likewise the fresh 16-bit value (a perturbed DNS id, port, ICMP identifier or sequence number) is 0 in one table of four
+        if (rng.below(4) == 0 && v[P16][1] != Bytes(2, 0) && v[P16][2] != Bytes(2, 0)) v[P16][3] = Bytes(2, 0);
     }
     const Bytes& get(Cls c, long k) const { return v[c][k >= 1 && k <= 4 ? k : 1]; }
     uint16_t u16(Cls c, long k) const { const Bytes& b = get(c, k); return (uint16_t)((b[0] << 8) | b[1]); }
@@ -302,6 +304,9 @@ static void safe_case(const vh::Json& sc, vh::Out& out, const vh::Args& args) {
         for (size_t i = 0; i < 128 && i < reply.size(); ++i) buf[i] = reply[i];
         size_t off = 0; for (PDU* q = obj; q && q->inner_pdu(); q = q->inner_pdu()) off += q->header_size();
         if (off < 128) buf[off] = src == "type0" ? 0 : (uint8_t)(buf[off] + (src == "typeup" ? 1 : -1)); }
+    // the reply with an 802.1Q tag inserted behind the addresses (a reply that picked up a tag on the way), every truncation
+    else if (src == "tagged") { for (size_t i = 0; i < 12 && i < reply.size(); ++i) buf[i] = reply[i];
+        if (reply.size() >= 14) { buf[12] = 0x81; buf[13] = 0x00; buf[14] = 0x00; buf[15] = 0x05; for (size_t i = 12; i < reply.size() && i + 4 < 128; ++i) buf[i + 4] = reply[i]; } }
     else if (src == "random") buf = rnd(rng, 128);
     else if (src == "ones") buf.assign(128, 0xff);
     const std::string cls = label.substr(0, label.find_first_of("#:"));
